@@ -3013,8 +3013,8 @@ func (vm *Thread) popSkipOne() {
 // Pop n elements off the value stack skipping the first one.
 func (vm *Thread) popNSkipOne(n int) {
 	*vm.spAdd(-n - 1) = *vm.spAdd(-1)
-	for i := vm.spOffset() - 1; i >= vm.spOffset()-n; i-- {
-		*vm.spAdd(i) = value.Undefined
+	for i := 1; i <= n; i++ {
+		*vm.spAdd(-i) = value.Undefined
 	}
 	vm.spDecrementBy(uintptr(n))
 }
